@@ -59,6 +59,38 @@ PROPS = {
         "assumptions": ["progress as a universal theorem is not claimed (needs confluence with type:type and recursive groups); the property is decided per generated instance",
                         "programs that do not terminate within the per-case time limit are inconclusive"],
     },
+    "C09": {
+        "level": "proof",
+        "streams": ["C09"],
+        "generated_obligations": 1,
+        "rule": "all strings of length <= 3 (quick; <= 4 thorough) over a 25-symbol alphabet covering every token-forming class (letters, digits, "
+                "underscore, symbols, #, newline, space, tab, CR, 2-byte letter, 3-byte space, non-alphabetic numeric, illegal 3- and 4-byte "
+                "symbols, combining mark), sampled strings of the next two lengths, all strings <= 4 (5) over the layout alphabet, keyword "
+                "neighbourhoods / symbols / literals of 1-400 digits joined by whitespace-and-comment gaps, random Unicode text to 300 characters. "
+                "Each case: the implementation's tokens must pass the Coq oracles partition_ok and layout_ok, and equal the extracted model "
+                "tokenizer's tokens (kinds, payloads, byte ranges; for errors the unexpected symbols). Non-trivial: at least one token or "
+                "error; distinct by text.",
+        "trusted_base": TB_COMMON + [
+            "translator tools/extract_tables.py: symbol, look-ahead, keyword and both line-break tables are regenerated from tokenizer.rs/token.rs on every run (fail-closed regular expressions)",
+            "modelled, not verified: the control skeleton of tokenize() is mirrored by hand in coq/Model/Tokenizer.v; Unicode classes of non-ASCII code points and grapheme boundaries are taken from Rust per input (std / unicode-segmentation are trusted); BigInt parsing is the decimal fold",
+        ],
+        "assumptions": ["the partition statement is evaluated per input on the implementation (oracle), not yet proved for the model for all inputs"],
+    },
+    "C10": {
+        "level": "proof",
+        "streams": ["C10", "C09"],
+        "generated_obligations": 1,
+        "rule": "re-layout: generated programs, each re-laid-out 12 (40) times: every gap between two tokens refilled with spaces, tabs, "
+                "comments (empty, ending in a multi-byte character, at end of file), CR, and 1-3 line breaks wherever the rule allows; a "
+                "separating line break replaced by `;` - token kinds (terminator type aside), payloads and the parser's output modulo ranges "
+                "must not change (checked on the implementation alone). Plus the C09 string streams with the layout_ok oracle. Non-trivial: the "
+                "program parses; distinct by the pair of texts.",
+        "trusted_base": TB_COMMON + [
+            "translator tools/extract_tables.py: both line-break tables regenerated from tokenizer.rs on every run; Theorem linebreak_tables_are_spec pins them to the sets the property describes",
+            "modelled, not verified: as for C09",
+        ],
+        "assumptions": ["the layout characterisation is evaluated per input on the implementation, not yet proved for the model for all inputs"],
+    },
 }
 
 NOT_APPLICABLE = {}
@@ -93,5 +125,25 @@ MANIFEST_TEXT = {
         "design_ref": "DESIGN.md section 4, C01; section 5",
         "note": "Trusted: Coq kernel, extraction, OCaml driver, harness. Known findings are matched by signature (reason + binder of the stuck variable / hook H1).",
         "technique": "translation validation: implementation run + proved stuck-term classifier (Coq), type-directed program generation",
+    },
+    "C09": {
+        "text": "Kernel-checked on every run: the symbol, look-ahead and keyword tables regenerated from tokenizer.rs produce each fixed token "
+                "from exactly its own text, and the tokenizer model can never reach the second pass's panic. The partition property itself "
+                "(disjoint, in order, on character boundaries, exact lexemes, only whitespace/comments between, maximal munch, keywords as whole "
+                "words, exact literal values) is the Coq function partition_ok, run on the implementation's tokens for all short strings over a "
+                "class-covering alphabet and random Unicode text, together with full model/implementation token comparison. Partial proof: the "
+                "universal partition theorem for the model is stated (C09_partition_statement) but not yet proved.",
+        "design_ref": "DESIGN.md section 4, C09",
+        "note": "Trusted: Coq kernel, translator for the tables, extraction, OCaml driver (UTF-8 decoding), harness; Unicode classes and grapheme boundaries come from Rust.",
+        "technique": "generated-table obligations by vm_compute + Coq no-panic proof + executable Coq oracle on implementation output + model differential testing",
+    },
+    "C10": {
+        "text": "Kernel-checked on every run: the two line-break tables regenerated from tokenizer.rs equal the sets of tokens that can end / "
+                "start an expression as the property describes (moving one token between the lists breaks the theorem for all inputs). The "
+                "layout rule is the Coq function layout_ok run on the implementation's tokens; invariance under re-layout is checked on the "
+                "implementation directly (tokens and parse result). Partial proof: the universal layout theorem is stated, not yet proved.",
+        "design_ref": "DESIGN.md section 4, C10",
+        "note": "Trusted: as C09.",
+        "technique": "generated-table obligation (vm_compute) + executable Coq layout oracle + metamorphic re-layout testing of the implementation",
     },
 }
